@@ -1509,12 +1509,15 @@ mod verif_xc_permissions {
       for (di, data) in DATA_KINDS.iter().enumerate() {
         for bits in 0..16u32 {
           let flags = [bits & 1 != 0, bits & 2 != 0, bits & 4 != 0, bits & 8 != 0];
-          // decoy rules in front (other topic) and behind (catch-all) with different values everywhere
+          // decoy rules in front (other topic) and behind (a SHADOWED rule naming the topic literally, then a
+          // catch-all) with different values everywhere: the FIRST matching rule in document order applies
+          // (DDS Security 9.4.1.2.7), however specific a later one is
           let other_flags = [!flags[0], !flags[1], !flags[2], !flags[3]];
           let rules = format!(
-            "{}{}{}",
+            "{}{}{}{}",
             topic_rule_xml("Other*", other_flags, KINDS[(mi + 2) % 5], DATA_KINDS[(di + 1) % 3]),
             topic_rule_xml("Xc[TU]opic?", flags, metadata, data),
+            topic_rule_xml("XcTopic1", other_flags, KINDS[(mi + 3) % 5], DATA_KINDS[(di + 1) % 3]),
             topic_rule_xml("*", other_flags, KINDS[(mi + 1) % 5], DATA_KINDS[(di + 2) % 3])
           );
           let xml = governance_xml(false, true, "NONE", "NONE", "NONE", &rules);
